@@ -4,8 +4,9 @@ import IofloModel.Lemmas.Errno
 
 Property theorems only.  Model: `Model/Errno.lean` (the `except` ladders of every socket operation of
 `Client`, `ClientTls`, `Incomer`, `IncomerTls`, `Acceptor`, `SocketUdpNb`, `GramStack`), in the
-version with `fixes/D13-*.patch` and `fixes/D26-*.patch` applied (`Version.fixed`); what the code as
-found does (`Version.orig`) is stated in the `…_orig_…` theorems.
+version with `fixes/D13-*`, `fixes/D26-*` and `fixes/D26b-*` applied (`Version.fixed2`); what the code
+did before each repair (`Version.orig`, and `Version.fixed` = before D26b) is stated in the `…_orig_…`
+theorems.
 Specification predicates (`isLoss`, `isBlock`, `lossErrnos`, `Err.wf`) are in `Lemmas/Errno.lean`;
 the errno universe is all of `Nat`.
 -/
@@ -20,18 +21,18 @@ theorem plainLadder_loss {n : Nat} (h : lossErrnos.contains n = true) :
     if_false, if_true]
 
 theorem tlsLadder_loss {n : Nat} (h : lossErrnos.contains n = true) :
-    tlsLadder .fixed ⟨.osError, n⟩ = .cutoff := by
+    tlsLadder .fixed2 ⟨.osError, n⟩ = .cutoff := by
   have hb := (loss_not_block n (mem_of_contains h)).2
-  simp only [tlsLadder, ExcClass.isOs, hb, inTuple_streamLoss, h, Bool.not_true, Bool.false_eq_true,
-    if_false, if_true, Bool.or_true]
+  simp only [tlsLadder, ExcClass.isOs, ExcClass.isSsl, hb, inTuple_streamLoss, h, Bool.not_true,
+    Bool.false_eq_true, if_false, if_true, Bool.or_true, Bool.false_and]
 
-theorem tlsLadder_eof : tlsLadder .fixed ⟨.sslEof, SSL_ERROR_EOF⟩ = .cutoff := by decide
+theorem tlsLadder_eof : tlsLadder .fixed2 ⟨.sslEof, SSL_ERROR_EOF⟩ = .cutoff := by decide
 
 /-- the full statement of the loss clause: on every stream-transport site — data operations *and*
 the TLS handshake — a connection-loss error cuts off instead of raising -/
 def C25_full : Prop :=
   ∀ site : Site, site.isStream = true → ∀ e : Err, e.wf = true → isLoss site e = true →
-    classify .fixed site e = .cutoff
+    classify .fixed2 site e = .cutoff
 
 /-- **C25, loss clause, for `receive` and `send` of all eight stream transports' ladders** (with the
 D26 repair): every connection-loss errno, and on TLS transports a TLS EOF, marks the connection cut
@@ -39,9 +40,9 @@ off and returns empty data (receive) / 0 (send) — no exception, nothing else c
 excludes the handshake (finding D26c, counterexample below). -/
 theorem C25_loss_cuts_off_partial (site : Site) (hd : site.isData = true) (e : Err)
     (hw : e.wf = true) (hl : isLoss site e = true) (s : St) :
-    classify .fixed site e = .cutoff ∧
-      effect .fixed site s e = ({ s with cutoff := true }, cutRet site) := by
-  have hc : classify .fixed site e = .cutoff := by
+    classify .fixed2 site e = .cutoff ∧
+      effect .fixed2 site s e = ({ s with cutoff := true }, cutRet site) := by
+  have hc : classify .fixed2 site e = .cutoff := by
     obtain ⟨cls, n⟩ := e
     simp only [isLoss, Bool.or_eq_true, Bool.and_eq_true, beq_iff_eq] at hl
     rcases hl with ⟨hcls, hn⟩ | ⟨htls, hcls⟩
@@ -61,9 +62,9 @@ theorem C25_loss_cuts_off_partial (site : Site) (hd : site.isData = true) (e : E
 
 /-- non-vacuity: ECONNRESET on a plain receive, TLS EOF on a TLS send -/
 example : isLoss .incomerRecv ⟨.osError, ECONNRESET⟩ = true ∧
-    effect .fixed .incomerRecv ⟨false, true⟩ ⟨.osError, ECONNRESET⟩ = (⟨true, true⟩, .emptyBytes) ∧
+    effect .fixed2 .incomerRecv ⟨false, true⟩ ⟨.osError, ECONNRESET⟩ = (⟨true, true⟩, .emptyBytes) ∧
     isLoss .clientTlsSend ⟨.sslEof, 8⟩ = true ∧ Err.wf ⟨.sslEof, 8⟩ = true ∧
-    effect .fixed .clientTlsSend ⟨false, true⟩ ⟨.sslEof, 8⟩ = (⟨true, true⟩, .zero) := by decide
+    effect .fixed2 .clientTlsSend ⟨false, true⟩ ⟨.sslEof, 8⟩ = (⟨true, true⟩, .zero) := by decide
 
 /-- **Finding D26c**: the full statement fails on the handshake — a connection reset (or TLS EOF)
 during `do_handshake` closes the socket and re-raises ("should give up here nicely"). -/
@@ -85,8 +86,8 @@ theorem handshakeLadder_close {e : Err} (h : ¬ (e.cls.isSsl = true ∧ inTuple 
 /-- what the handshake does with every error that is not want-read / want-write: close and re-raise -/
 theorem C25_handshake_other_closes_and_raises (site : Site) (hh : site.isHandshake = true) (e : Err)
     (hw : e.wf = true) (hb : isBlock site e = false) (s : St) :
-    effect .fixed site s e = ({ s with sockOpen := false }, .raised) := by
-  have hc : classify .fixed site e = .closeRaise := by
+    effect .fixed2 site s e = ({ s with sockOpen := false }, .raised) := by
+  have hc : classify .fixed2 site e = .closeRaise := by
     have key : handshakeLadder e = .closeRaise := by
       apply handshakeLadder_close
       obtain ⟨cls, n⟩ := e
@@ -136,24 +137,18 @@ theorem C25_would_block_no_state_change (v : Version) (site : Site) (hs : site.h
 example : isBlock .clientRecv ⟨.osError, EAGAIN⟩ = true ∧
     isBlock .incomerTlsSend ⟨.sslWantWrite, 3⟩ = true ∧ Err.wf ⟨.sslWantWrite, 3⟩ = true ∧
     isBlock .incomerTlsHandshake ⟨.sslWantRead, 2⟩ = true ∧
-    effect .fixed .incomerTlsHandshake ⟨false, true⟩ ⟨.sslWantRead, 2⟩ = (⟨false, true⟩, .falseVal) := by
+    effect .fixed2 .incomerTlsHandshake ⟨false, true⟩ ⟨.sslWantRead, 2⟩ = (⟨false, true⟩, .falseVal) := by
   decide
 
 /-! ## any other error propagates -/
 
-/-- the full statement of the third clause, for the data operations -/
-def C25_other_full : Prop :=
-  ∀ site : Site, site.isData = true → ∀ e : Err, e.wfAt site = true → isLoss site e = false →
-    isBlock site e = false → ∀ s : St, effect .fixed site s e = (s, .raised)
-
-/-- **C25, third clause**: an error that is neither would-block nor connection loss is re-raised by
-`receive` / `send` with the transport unchanged.  Hypothesis: not in the region of finding D26b
-(`OSError` with errno 2 or 3 on a TLS transport, taken for want-read / want-write by its number). -/
-theorem C25_other_raises_partial (site : Site) (hd : site.isData = true) (e : Err)
-    (hw : e.wfAt site = true) (hnl : isLoss site e = false) (hnb : isBlock site e = false)
-    (hreg : tlsNumberClash site e = false) (s : St) :
-    effect .fixed site s e = (s, .raised) := by
-  have hc : classify .fixed site e = .raise := by
+/-- **C25, third clause** (with the D26b repair): an error that is neither would-block nor connection
+loss is re-raised by `receive` / `send` of all eight stream ladders with the transport unchanged —
+every exception class, every `args[0] : Nat`. -/
+theorem C25_other_raises (site : Site) (hd : site.isData = true) (e : Err)
+    (hw : e.wfAt site = true) (hnl : isLoss site e = false) (hnb : isBlock site e = false) (s : St) :
+    effect .fixed2 site s e = (s, .raised) := by
+  have hc : classify .fixed2 site e = .raise := by
     obtain ⟨cls, n⟩ := e
     have hplain : site.isTls = false → plainLadder ⟨cls, n⟩ = .raise := by
       intro htls
@@ -161,16 +156,16 @@ theorem C25_other_raises_partial (site : Site) (hd : site.isData = true) (e : Er
         Bool.or_false, Bool.false_or] at hnl hnb hw
       simp only [plainLadder, inTuple_plainBlock, inTuple_streamLoss]
       cases cls <;> simp_all [ExcClass.isOs, ExcClass.isSsl]
-    have htlsl : site.isTls = true → tlsLadder .fixed ⟨cls, n⟩ = .raise := by
+    have htlsl : site.isTls = true → tlsLadder .fixed2 ⟨cls, n⟩ = .raise := by
       intro htls
-      simp only [isLoss, isBlock, tlsNumberClash, Err.wfAt, htls, hd, if_true, Bool.true_and,
-        Bool.and_true, Bool.true_or] at hnl hnb hw hreg
+      simp only [isLoss, isBlock, Err.wfAt, htls, if_true, Bool.true_and,
+        Bool.and_true, Bool.true_or] at hnl hnb hw
       simp only [tlsLadder, inTuple_tlsBlock, inTuple_streamLoss]
       cases cls
-      · simp_all [ExcClass.isOs]
+      · simp_all [ExcClass.isOs, ExcClass.isSsl]
       · have h10 : n ≤ 10 := by simp [Err.wf] at hw; exact hw.1
         have := small_not_loss n h10
-        simp_all [ExcClass.isOs, Err.wf]
+        simp_all [ExcClass.isOs, ExcClass.isSsl, Err.wf]
       · simp_all [ExcClass.isOs]
       · simp_all [ExcClass.isOs]
       · simp_all [ExcClass.isOs]
@@ -183,20 +178,23 @@ theorem C25_other_raises_partial (site : Site) (hd : site.isData = true) (e : Er
       | exact htlsl rfl
   simp [effect, hc]
 
-/-- non-vacuity: EPIPE on a plain send, a protocol error and a clean TLS shutdown on TLS receives -/
-example : effect .fixed .clientSend ⟨false, true⟩ ⟨.osError, 32⟩ = (⟨false, true⟩, .raised) ∧
+/-- non-vacuity: EPIPE on a plain send, a protocol error and a clean TLS shutdown on TLS receives, and
+the former D26b case: ENOENT out of a TLS receive now propagates -/
+example : effect .fixed2 .clientSend ⟨false, true⟩ ⟨.osError, 32⟩ = (⟨false, true⟩, .raised) ∧
     isLoss .clientSend ⟨.osError, 32⟩ = false ∧ isBlock .clientSend ⟨.osError, 32⟩ = false ∧
-    effect .fixed .incomerTlsRecv ⟨false, true⟩ ⟨.sslError, 1⟩ = (⟨false, true⟩, .raised) ∧
-    Err.wfAt .incomerTlsRecv ⟨.sslError, 1⟩ = true ∧ tlsNumberClash .incomerTlsRecv ⟨.sslError, 1⟩ = false ∧
-    effect .fixed .incomerTlsRecv ⟨false, true⟩ ⟨.sslZeroReturn, 6⟩ = (⟨false, true⟩, .raised) := by
+    effect .fixed2 .incomerTlsRecv ⟨false, true⟩ ⟨.sslError, 1⟩ = (⟨false, true⟩, .raised) ∧
+    Err.wfAt .incomerTlsRecv ⟨.sslError, 1⟩ = true ∧
+    effect .fixed2 .incomerTlsRecv ⟨false, true⟩ ⟨.sslZeroReturn, 6⟩ = (⟨false, true⟩, .raised) ∧
+    effect .fixed2 .clientTlsRecv ⟨false, true⟩ ⟨.osError, 2⟩ = (⟨false, true⟩, .raised) := by
   decide
 
-/-- **Finding D26b**: the third clause fails in the stated region — `OSError(ENOENT)` out of a TLS
-`recv` is answered like a want-read (returns `None`, nothing raised). -/
-theorem C25_counterexample_tls_number_clash : ¬ C25_other_full := by
-  intro h
-  have := h .clientTlsRecv rfl ⟨.osError, 2⟩ rfl (by decide) (by decide) ⟨false, true⟩
-  exact absurd this (by decide)
+/-- **D26b before the repair**: the TLS data ladders recognised would-block by the *number* in
+`ex.args[0]` whatever the class — `OSError(ENOENT)` / `OSError(ESRCH)` out of a TLS `recv` / `send` was
+answered like a want-read (nothing raised) on all four ladders. -/
+theorem C25_D26b_orig_swallows_oserror :
+    ∀ site ∈ [Site.clientTlsRecv, .clientTlsSend, .incomerTlsRecv, .incomerTlsSend],
+      ∀ n ∈ [2, 3], classify .fixed site ⟨.osError, n⟩ = .wouldBlock ∧
+        isBlock site ⟨.osError, n⟩ = false ∧ isLoss site ⟨.osError, n⟩ = false := by decide
 
 /-! ## exact characterisation over the whole errno universe -/
 
@@ -249,19 +247,19 @@ theorem C25_plain_exact (v : Version) (site : Site)
 `sendto` *and* out of `recvfrom` is absorbed by `GramStack` — the packet is kept for a later try,
 the receive reports "no data" — and nothing is raised. -/
 theorem C25_gram_transient_retry (e : Err) (hc : e.cls = .osError) (hl : e.arg0 ∈ lossErrnos) (s : St) :
-    effect .fixed .gramSend s e = (s, .kept) ∧ effect .fixed .gramRecv s e = (s, .falseVal) := by
+    effect .fixed2 .gramSend s e = (s, .kept) ∧ effect .fixed2 .gramRecv s e = (s, .falseVal) := by
   obtain ⟨cls, n⟩ := e
   simp only at hc hl; subst hc
   have ht := loss_sub_gramTransient n hl
   have hb := (loss_not_block n hl).1
-  have h1 : classify .fixed .gramSend ⟨.osError, n⟩ = .retry := by
+  have h1 : classify .fixed2 .gramSend ⟨.osError, n⟩ = .retry := by
     simp [classify, gramSendLadder, udpSendLadder, ExcClass.isOs, ht]
-  have h2 : classify .fixed .gramRecv ⟨.osError, n⟩ = .retry := by
+  have h2 : classify .fixed2 .gramRecv ⟨.osError, n⟩ = .retry := by
     simp [classify, gramRecvLadder, udpRecvLadder, acceptLadder, ExcClass.isOs, ht, hb]
   exact ⟨by simp [effect, h1, Site.isSend], by simp [effect, h2, Site.isSend]⟩
 
 example : ECONNREFUSED ∈ lossErrnos ∧
-    effect .fixed .gramRecv ⟨false, true⟩ ⟨.osError, ECONNREFUSED⟩ = (⟨false, true⟩, .falseVal) := by decide
+    effect .fixed2 .gramRecv ⟨false, true⟩ ⟨.osError, ECONNREFUSED⟩ = (⟨false, true⟩, .falseVal) := by decide
 
 /-- other errors out of `sendto` / `recvfrom` propagate through the stack -/
 theorem C25_gram_other_raises (v : Version) (n : Nat) (hn : inTuple n gramTransient = false)
@@ -285,17 +283,19 @@ theorem C25_D26_orig_reraises_tls_eof :
 theorem C25_D13_orig_receive_fatal :
     ∀ n ∈ lossErrnos, classify .orig .gramRecv ⟨.osError, n⟩ = .raise := by decide
 
-/-- outside those two places the repaired and the original ladders agree, for every exception -/
+/-- outside those three places the repaired and the original ladders agree, for every exception -/
 theorem C25_fix_changes_nothing_else (site : Site) (e : Err)
     (h1 : ¬ (site.isTls = true ∧ site.isData = true ∧ e.cls = .sslEof))
-    (h2 : site ≠ .gramRecv) : classify .fixed site e = classify .orig site e := by
+    (h2 : site ≠ .gramRecv) (h3 : tlsNumberClash site e = false) :
+    classify .fixed2 site e = classify .orig site e := by
   obtain ⟨cls, n⟩ := e
   cases site <;> first
     | rfl
     | exact absurd rfl h2
     | (simp only [classify, tlsLadder, tlsLossOrig, inTuple, List.any_append, List.any_cons,
          List.any_nil, Item.eqInt, Bool.or_false]
-       cases cls <;> simp_all [Site.isTls, Site.isData])
+       simp only [tlsNumberClash, Site.isTls, Site.isData, Bool.true_and] at h3
+       cases cls <;> simp_all [Site.isTls, Site.isData, ExcClass.isSsl, ExcClass.isOs, tlsBlock, inTuple, Item.eqInt])
 
 /-! ## connect -/
 
